@@ -1407,7 +1407,11 @@ def add_invariant_checks(cls: ClassT) -> None:
     # will not be re-decorated, so that this loop runs in O( dir(cls) * len(invariants) ),
     # but with a negligible constant.
     for name in dir(cls):
-        value = getattr(cls, name)
+        try:
+            value = getattr(cls, name)
+        except AttributeError:
+            # A descriptor may be available only on the instances of the class; it is no candidate for a decoration.
+            continue
 
         # __new__ is a special class method (though not marked properly with @classmethod!).
         # We need to ignore __repr__ to prevent endless loops when generating error messages.
@@ -1465,8 +1469,14 @@ def add_invariant_checks(cls: ClassT) -> None:
 
             # Ignore static methods
             # See https://stackoverflow.com/questions/14187973/python3-check-if-method-is-static
-            bound_value = inspect.getattr_static(cls, name, None)
-            if isinstance(bound_value, staticmethod):
+            #
+            # Ignore also the other descriptors which merely give a function when accessed on the class
+            # (*e.g.*, ``functools.singledispatchmethod`` or ``functools.partialmethod``): replacing such a descriptor
+            # with a wrapper around that function would change how the member behaves.
+            static_value = inspect.getattr_static(cls, name, None)
+            if not inspect.isfunction(static_value) and not isinstance(
+                static_value, _SLOT_WRAPPER_TYPE
+            ):
                 continue
 
             names_funcs.append((name, value))
